@@ -188,7 +188,42 @@ def run(args):
                     viol('mismatch_accepted', 'ber', r.line[:200])
                 if kv.get('rc') == '0' and what == 'id_without_row' and not info['ext']:
                     viol('unknown_identifier_accepted', 'ber', r.line[:200])
-        sample = dict(label=label, module=text[:500], commands=len(lines))
+        # second pass: the frames' own XER / UPER encodings (taken from the round-trip output above) under truncation and
+        # substitution, under every chunk schedule (BER, XER) and through the decode/reset/free lifecycle with allocation faults:
+        # an open type's inner value is decoded by a separate decoder whose partial state the holder has to manage
+        lines2, meta2 = [], []
+        seen_rows = set()
+        for (what, row, v, data), r in zip(meta, res):
+            if what != 'good' or row in seen_rows or r.crash is not None:
+                continue
+            kv, _ = common.parse_kv(r.line)
+            if kv.get('rc') != '0':
+                continue
+            seen_rows.add(row)
+            encs = [('ber', data.hex())] + [(syn, kv[syn]) for syn in ('cxer', 'uper') if kv.get(syn) and not kv[syn].startswith('E') and kv[syn] not in ('skip', '-')]
+            for syn, hx in encs:
+                if len(hx) > 1200:
+                    continue
+                lines2.append('mut Frame %s %s t 0' % (syn, hx)); meta2.append(('mutation', syn, row))
+                if syn in ('ber', 'cxer'):
+                    lines2.append('chunk Frame %s %s %s' % (syn, hx, 'full' if len(hx) <= 192 else 'k2')); meta2.append(('chunk', syn, row))
+                lines2.append('life Frame %s %s 3 1 20000' % (syn, hx)); meta2.append(('life', syn, row))
+        res2 = common.run_driver(exe, lines2, watchdog=120)
+        for (what, syn, row), r, line in zip(meta2, res2, lines2):
+            st['evaluations'] += 1
+            sig = dict(rows=label.split('/')[0], shape='/'.join(label.split('/')[1:]), case=what, row=row, syntax=syn)
+            if r.crash is not None:
+                ck, cs = common.crash_sig(r.crash)
+                out.append((dict(sig, kind='crash', crash_kind=ck, crash_site=cs), dict(module=text, type='Frame', cmd=line[:3000], observed=r.crash[-2500:], detail=r.crash[-1500:])))
+                continue
+            kv, _ = common.parse_kv(r.line)
+            if 'oneshot=' in r.line and 'viol=' not in r.line:
+                continue        # chunk: the one-shot decode of this syntax is itself not available (C01's matter)
+            if int(kv.get('viol', 0)):
+                first = kv.get('first') or ' '.join(t[2:] for t in r.line.split() if t.startswith('v='))
+                out.append((dict(sig, kind='%s_%s' % (what, first.split(':')[0])), dict(module=text, type='Frame', cmd=line[:3000], observed=r.line[:2500], detail=first[:600])))
+            st[what + '_runs'] += 1
+        sample = dict(label=label, module=text[:500], commands=len(lines) + len(lines2))
         return out, st, sample
 
     items = list(zip(mods, built))
